@@ -90,7 +90,7 @@ def gen_arm(im, kind):
         if kind == "base":
             return ("%s let g = -a; vk_assert!(same(g.value, -a_x), \"dim.%s.value\"); vk_assert!(g.unit == Unit::new(a_m, a_s), \"dim.%s.unit_kept\");"
                     % (_mk(l, "a"), name, name))
-        return ("%s kani::assume(a_i != i64::MIN); let g = -a; vk_assert!(g.0 == -a_i, \"dim.%s.int\");" % (_mk(l, "a"), name))
+        return ("%s let want = -a_i; let g = -a; vk_assert!(g.0 == want, \"dim.%s.int\");" % (_mk(l, "a"), name))
     assign = tr in ASSIGN
     op = ASSIGN[tr] if assign else OPS[tr]
     pre = _mk(l, "a") + " " + _mk(r, "b")
@@ -116,14 +116,10 @@ def gen_arm(im, kind):
         return ("%s %s vk_assert!(same(g.value, a_x %s b_x), \"dim.%s.value\");"
                 " vk_assert!(g.unit == Unit::new(a_m %s b_m, a_s %s b_s), \"dim.%s.unit_exponents\");" % (pre, got, op, name, sgn, sgn, name))
     if kind == "int":
-        if op == "/":
-            guard = "kani::assume(b_i != 0 && !(a_i == i64::MIN && b_i == -1));"
-            ref = "a_i / b_i"
-        else:
-            fn = {"+": "checked_add", "-": "checked_sub", "*": "checked_mul"}[op]
-            guard = "kani::assume(a_i.%s(b_i).is_some());" % fn
-            ref = "a_i.wrapping_%s(b_i)" % {"+": "add", "-": "sub", "*": "mul"}[op]
-        return "%s %s %s vk_assert!(g.0 == %s, \"dim.%s.int\");" % (pre, guard, got, ref, name)
+        # the harness's own checked i64 operation (allowed to panic: overflow / zero divisor are outside the claim)
+        # defines the domain; past it CBMC assumes the operation succeeded, and rrtk's identical checked operation
+        # is then matched structurally
+        return "%s let want = a_i %s b_i; %s vk_assert!(g.0 == want, \"dim.%s.int\");" % (pre, op, got, name)
     if kind == "conv":
         guard = "kani::assume(a_m == b_m && a_s == b_s);" if addsub else ""
         if op in "+*":
